@@ -99,6 +99,9 @@ func Load(blob []byte) (*PatchSet, error) {
 		return nil, fmt.Errorf("unsupported binpatch version %d", h.Version)
 	}
 	num := int(h.NumPatches)
+	if int64(num)*16 > int64(r.Len()) {
+		return nil, io.ErrUnexpectedEOF
+	}
 	p := &PatchSet{
 		Patches: make([]PatchHeader, num),
 		Blobs:   make([][]byte, num),
@@ -107,6 +110,9 @@ func Load(blob []byte) (*PatchSet, error) {
 		return nil, err
 	}
 	for i, hdr := range p.Patches {
+		if int64(hdr.NewSize) > int64(r.Len()) {
+			return nil, io.ErrUnexpectedEOF
+		}
 		p.Blobs[i] = make([]byte, int(hdr.NewSize))
 		if _, err := io.ReadFull(r, p.Blobs[i]); err != nil {
 			return nil, err
